@@ -100,6 +100,79 @@ def _get(V):
                         and set(job.fields) == set(shared_before)))
 
 
+@P.unit(f"{JOB}._prepare_iter", name="prepare / process hand the caller's arguments to the user's functions: f(job, item, *args, **kwargs), item by item in order -- for single and vectorised jobs",
+        functions=[f"{JOB}._prepare", f"{JOB}._process", f"{JOB}._prepare_iter", f"{JOB}._process_iter", f"{JOB}.vectorize", f"{JOB}.prep", f"{JOB}.post", f"{JOB}.reduce"])
+def _caller_arguments(V):
+    I, st = V.I, V.st
+    vectorized = V.choose([False, True], "vectorized")
+    calls, made = [], {}
+
+    def rec(kind):
+        def f(I_, a, k):
+            calls.append((kind, list(a), dict(k)))
+            if kind == "reduce":
+                return ListV(list(I_.iterate(a[1])))
+            r_ = Opaque(f"obj:{kind}-result-{len([c for c in calls if c[0] == kind])}")
+            made.setdefault(kind, []).append(r_)
+            return r_
+        b = Builtin(kind, f)
+        return b
+    fprep, fpost, fred = rec("prep"), rec("post"), rec("reduce")
+    for b_, nm in ((fprep, "user_prep"), (fpost, "user_post"), (fred, "user_reduce")):
+        try:
+            b_.qualname = nm
+        except Exception:
+            pass
+    st.ghost["callable_names"] = {id(fprep): "user_prep", id(fpost): "user_post", id(fred): "user_reduce"}
+    job = I.call(V.cls(JOB), [], {"return_files": ("out.xyz",), "name": "jobname", "doc": "doc"})
+    job.fields["_prep"], job.fields["_post"] = fprep, fpost
+    pos, kwv = V.sym("positional", "int"), V.sym("keyword", "str")
+    x1, x2, o1, o2 = Opaque("obj:item1"), Opaque("obj:item2"), Opaque("obj:out1"), Opaque("obj:out2")
+    V.witness(lambda ev: {"op": "caller-arguments", "vectorized": vectorized, "signature": "caller-arguments"})
+    V.cover()
+    I.target = f"{JOB}._prepare_iter"
+    if vectorized:
+        vec = I.call(I.getattr_(V.cls(JOB), "vectorize"), [job], {})
+        vec.fields["_reduce"] = fred
+        V.ensure("vectorize/keeps-the-user's-functions-and-settings", z3.BoolVal(vec.fields.get("_prep") is fprep and vec.fields.get("_post") is fpost
+                                                                                    and vec.fields.get("return_files") == ("out.xyz",)))
+        try:
+            got = list(I.iterate(I.call(I.getattr_(vec, "prepare"), [ListV([x1, x2]), pos], {"kw": kwv})))
+        except PyExc:
+            V.ensure("arguments/prepare-returns", z3.BoolVal(False))
+            return
+        pc = [c for c in calls if c[0] == "prep"]
+        V.ensure("arguments/prepare:one-call-per-item-in-order-as-f(job,item,*args,**kwargs)",
+                 z3.BoolVal(len(pc) == 2 and all(len(c[1]) == 3 and c[1][0] is vec and c[1][1] is x and c[1][2] is pos and list(c[2]) == ["kw"] and c[2]["kw"] is kwv
+                                                for c, x in zip(pc, (x1, x2)))))
+        V.ensure("arguments/prepare:results-in-item-order", z3.BoolVal(len(got) == 2 and len(made.get("prep", [])) == 2 and all(g is r_ for g, r_ in zip(got, made["prep"]))))
+        try:
+            res = I.call(I.getattr_(vec, "process"), [ListV([o1, o2]), ListV([x1, x2]), pos], {"kw": kwv})
+        except PyExc:
+            V.ensure("arguments/process-returns", z3.BoolVal(False))
+            return
+        qc = [c for c in calls if c[0] == "post"]
+        V.ensure("arguments/process:output-i-is-paired-with-item-i-as-f(job,output,item,*args,**kwargs)",
+                 z3.BoolVal(len(qc) == 2 and all(len(c[1]) == 4 and c[1][0] is vec and c[1][1] is o and c[1][2] is x and c[1][3] is pos and c[2].get("kw") is kwv
+                                                for c, o, x in zip(qc, (o1, o2), (x1, x2)))))
+        rc = [c for c in calls if c[0] == "reduce"]
+        V.ensure("arguments/reduce:called-once-with-the-results-the-items-and-the-arguments",
+                 z3.BoolVal(len(rc) == 1 and rc[0][1][0] is vec and len(rc[0][1]) == 4 and rc[0][1][3] is pos and rc[0][2].get("kw") is kwv))
+    else:
+        try:
+            r = I.call(I.getattr_(job, "prepare"), [x1, pos], {"kw": kwv})
+            r2 = I.call(I.getattr_(job, "process"), [o1, x1, pos], {"kw": kwv})
+        except PyExc:
+            V.ensure("arguments/prepare-returns", z3.BoolVal(False))
+            return
+        pc = [c for c in calls if c[0] == "prep"]
+        qc = [c for c in calls if c[0] == "post"]
+        V.ensure("arguments/prepare:one-call-per-item-in-order-as-f(job,item,*args,**kwargs)",
+                 z3.BoolVal(len(pc) == 1 and len(pc[0][1]) == 3 and pc[0][1][0] is job and pc[0][1][1] is x1 and pc[0][1][2] is pos and pc[0][2].get("kw") is kwv))
+        V.ensure("arguments/process:output-i-is-paired-with-item-i-as-f(job,output,item,*args,**kwargs)",
+                 z3.BoolVal(len(qc) == 1 and len(qc[0][1]) == 4 and qc[0][1][0] is job and qc[0][1][1] is o1 and qc[0][1][2] is x1 and qc[0][1][3] is pos and qc[0][2].get("kw") is kwv))
+
+
 @P.unit(f"{DRV}.__init__", name="DriverBase.__init__ keeps the instance's settings for every flag combination")
 def _driver_init(V):
     I, st = V.I, V.st
@@ -169,7 +242,23 @@ def _run_local(V):
     Path.ns["mkdir"] = Builtin("Path.mkdir", lambda i, a, kw: st.event("mkdir", a[0]))
     Path.ns["__truediv__"] = Builtin("Path./", lambda i, a, kw: Obj(Path, {"s": Opaque("obj:joined", (a[0].fields["s"], a[1]))}, tag="path"))
     Path.ns["stem"] = PropertyV(Builtin("Path.stem", lambda i, a, kw: Opaque("obj:stem")))
-    Path.ns["is_file"] = Builtin("Path.is_file", lambda i, a, kw: SV(exists[a[0].fields["s"]], "bool") if a[0].fields["s"] in exists else False)
+    # the output directory may already hold the record of an earlier run of this job file (a rerun after a failure, a requeued job):
+    # of the same input or of another one, failed or successful -- executing the job executes it, whatever is lying there
+    old = V.choose(["no-earlier-record", "earlier-record-same-input", "earlier-record-other-input"], "output-directory")
+    old_rec = Obj(I.builtins["object"], {"input_hash": H if old == "earlier-record-same-input" else V.sym("other_hash", "str"),
+                                         "exitcode": V.sym("old_exitcode", "int"), "jid": V.sym("old_jid", "str"), "stdouts": DictV([]), "stderrs": DictV([]),
+                                         "files": DictV([])}, tag="old-joboutput")
+    I.stubs["molli.pipeline.job:JobOutput.load"] = lambda I_, fv, a, kw: old_rec
+
+    def is_file(i, a, kw):
+        s_ = a[0].fields["s"]
+        if isinstance(s_, str) and s_ in exists:
+            return SV(exists[s_], "bool")
+        if isinstance(s_, Opaque) and s_.args and s_.args[0] == "outdir":
+            return old != "no-earlier-record"
+        return False
+    Path.ns["is_file"] = Builtin("Path.is_file", is_file)
+    Path.ns["exists"] = Path.ns["is_file"]
     Path.ns["read_bytes"] = Builtin("Path.read_bytes", lambda i, a, kw: content[a[0].fields["s"]])
     Path.ns["__str__"] = Builtin("Path.__str__", lambda i, a, kw: a[0].fields["s"])
     parsed = Obj(I.builtins["object"], {"job": Obj(Path, {"s": "job.inp"}, tag="path"), "output_dir": "outdir", "scratch_dir": "scratch"}, tag="parsed")
@@ -228,7 +317,7 @@ def _run_local(V):
     I.StreamCls.ns["read"] = Builtin("stream.read", s_read)
     I.builtins["exit"] = Builtin("exit", lambda i, a, kw: i.raise_py("SystemExit", a[0] if a else None))
     V.witness(lambda ev: {"op": "run_local", "k": k, "named": named, "rcs": [ev(r) for r in rcs],
-                          "exists": {n: bool(ev(e)) for n, e in exists.items()}, "signature": "run_local"})
+                          "exists": {n: bool(ev(e)) for n, e in exists.items()}, "earlier_record": old, "signature": "run_local"})
     V.cover()
     out = V.call(RUN, [])
     tr = st.trace
@@ -247,6 +336,9 @@ def _run_local(V):
                      else z3.BoolVal(not I.eq(dumps[0][0].fields["exitcode"], 0)))
         return
     # commands executed = prefix up to and including the first failing one, in order
+    V.ensure("post/the-job-is-executed-whatever-record-lies-in-the-output-directory", z3.BoolVal(nrun >= 1 and len(dumps) == 1))
+    if nrun == 0:
+        return
     V.ensure("post/commands-run-in-order", z3.BoolVal(all(isinstance(r["argv"], Opaque) and r["argv"].args[0] is cmds[i] for i, r in enumerate(runs))))
     for i in range(nrun - 1):
         V.ensure(f"post/earlier-commands-succeeded/{i}", rcs[i].z == 0)
